@@ -326,6 +326,7 @@ func checkC15(c *C15Case, st *VStats) *VFailure {
 					if f != nil {
 						return f
 					}
+					noteEvalCall()
 					want, e2 := fe.CheckIfAllowed(src, dst, pp[0], pp[1])
 					st.Points(1)
 					if (e1 != nil) != (e2 != nil) || (e1 == nil && got != want) {
